@@ -279,6 +279,65 @@ def make_lib(opname, op, dt, backend, ctx_kind, with_filter, seed):
     return run
 
 
+def a5_run(carve):
+    """group structure of summarize (native, Python oracle): one row per distinct tuple of the grouping columns - also when an
+    aggregate takes the name of a grouping column, with null keys, after a filter that empties groups, and ungrouped"""
+    import warnings
+
+    import polars as pl
+    import sqlalchemy as sqa
+
+    import pydiverse.transform as pdt
+
+    from .c13 import _enum_outcome
+
+    df = pl.DataFrame({"a": [1, 1, 2, 2, None, None, 3], "b": ["x", "y", "x", "x", "y", None, "x"], "c": [10, 20, 30, None, 50, 60, None], "h": [1, 2, 3, 4, 5, 6, 7]})
+    rows = df.rows()
+    eng = sqa.create_engine("sqlite://")
+    df.write_database("t", eng)
+    n, bad = 0, []
+
+    def oracle(keys, aggs, flt=lambda r: True):
+        groups = {}
+        for r in rows:
+            if flt(r):
+                groups.setdefault(tuple(r[k] for k in keys), []).append(r)
+        if not keys and not groups:
+            groups[()] = []
+        return sorted((k + tuple(f(g) for f in aggs) for k, g in groups.items()), key=str)
+
+    ssum = lambda g: (sum(r[2] for r in g if r[2] is not None) if any(r[2] is not None for r in g) else None)  # noqa: E731
+    cnt = lambda g: len(g)  # noqa: E731
+    mx = lambda g: max((r[3] for r in g), default=None)  # noqa: E731
+    with warnings.catch_warnings():
+        warnings.simplefilter("ignore")
+        for be, t in (("polars", pdt.Table(df, name="t")), ("sqlite", pdt.Table("t", pdt.SqlAlchemy(eng)))):
+            cases = [
+                ("group_by(a,b) >> summarize(s=c.sum(), n=count())", lambda: t >> pdt.group_by(t.a, t.b) >> pdt.summarize(s=t.c.sum(), n=pdt.count()), ["a", "b", "s", "n"], oracle((0, 1), (ssum, cnt))),
+                ("group_by(b,a) >> summarize(n=count())", lambda: t >> pdt.group_by(t.b, t.a) >> pdt.summarize(n=pdt.count()), ["b", "a", "n"], oracle((1, 0), (cnt,))),
+                ("group_by(a,b) >> summarize(a=c.sum())  [aggregate named like a grouping column]", lambda: t >> pdt.group_by(t.a, t.b) >> pdt.summarize(a=t.c.sum()), ["b", "a"], sorted(((k[1], v) for k, v in ((r[:2], r[2]) for r in oracle((0, 1), (ssum,)))), key=str)),
+                ("group_by(a) >> summarize(a=h.max())  [aggregate replaces the only grouping column]", lambda: t >> pdt.group_by(t.a) >> pdt.summarize(a=t.h.max()), ["a"], sorted(((r[1],) for r in oracle((0,), (mx,))), key=str)),
+                ("group_by(a) >> filter(h > 4) >> summarize(n=count())", lambda: t >> pdt.group_by(t.a) >> pdt.filter(t.h > 4) >> pdt.summarize(n=pdt.count()), ["a", "n"], oracle((0,), (cnt,), lambda r: r[3] > 4)),
+                ("summarize(s=c.sum(), n=count())  [ungrouped]", lambda: t >> pdt.summarize(s=t.c.sum(), n=pdt.count()), ["s", "n"], oracle((), (ssum, cnt))),
+                ("filter(h > 100) >> summarize(s=c.sum(), n=count())  [ungrouped, no rows]", lambda: t >> pdt.filter(t.h > 100) >> pdt.summarize(s=t.c.sum(), n=pdt.count()), ["s", "n"], [(None, 0)]),
+                ("group_by(a) >> group_by(b, add=True) >> summarize(n=count())", lambda: t >> pdt.group_by(t.a) >> pdt.group_by(t.b, add=True) >> pdt.summarize(n=pdt.count()), ["a", "b", "n"], oracle((0, 1), (cnt,))),
+                ("group_by(a) >> group_by(b) >> summarize(n=count())  [second group_by replaces]", lambda: t >> pdt.group_by(t.a) >> pdt.group_by(t.b) >> pdt.summarize(n=pdt.count()), ["b", "n"], oracle((1,), (cnt,))),
+            ]
+            for label, mk, cols, want in cases:
+                n += 1
+                try:
+                    out = mk() >> pdt.export(pdt.Polars())
+                except (pdt.errors.SubqueryError, pdt.errors.NotSupportedError):
+                    continue
+                except Exception as ex:  # noqa: BLE001
+                    bad.append(f"[{be}] {label}: raises {type(ex).__name__}: {str(ex)[:140]}")
+                    continue
+                got = sorted(out.rows(), key=str)
+                if out.columns != cols or got != sorted(want, key=str):
+                    bad.append(f"[{be}] {label}: columns {out.columns} rows {got}; documented: columns {cols} rows {sorted(want, key=str)}")
+    return _enum_outcome("summarize returns one row per distinct tuple of the grouping columns (Python oracle), both backends", n, bad)
+
+
 def obligations(tier):
     obs = []
     disp = {"polars": H.fn_info(H.polars_backend.compile_col_expr), "sqlite": H.fn_info(H.sql_backend.SqlImpl.compile_col_expr)}
@@ -316,6 +375,8 @@ def obligations(tier):
                                 tags=("cross_backend",),
                             )
                         )
+    obs.append(Obligation("C04/A5/group_structure", "A5", "one row per distinct tuple of the grouping columns (native, Python oracle)", a5_run,
+                          functions=[H.fn_info(H.polars_backend.compile_ast), H.fn_info(H.sql_backend.SqlImpl.compile_ast), H.fn_info(H.pdt._internal.pipe.verbs.summarize)], bounded="9 grouping shapes x 2 backends on one 7-row table with null keys"))
     return obs
 
 
